@@ -89,7 +89,17 @@ func main() {
 	}
 
 	if *dumpFn != "" {
-		if *mm != "" {
+		if *control != "" {
+			for _, id := range rules.IDs() {
+				for _, c := range rules.Get(id).Controls {
+					if c.Name == *control && lc.Overlay == nil {
+						if ov, ok := c.Edit(*repo); ok {
+							lc.Overlay = ov
+						}
+					}
+				}
+			}
+		} else if *mm != "" {
 			ov, _, err := core.Metamorph(*repo, lc.Tags, *mm)
 			if err != nil {
 				fmt.Fprintln(os.Stderr, err)
@@ -260,7 +270,11 @@ func runControl(pr *rules.Property, name string, lc core.LoadConfig, repo string
 				var fired []string
 				for _, o := range rep.Obls {
 					if o.Status != core.Discharged {
-						fired = append(fired, string(o.Status)+": "+o.Key())
+						k := string(o.Status) + ": " + o.Key()
+						if os.Getenv("KETOSA_DETAIL") != "" {
+							k += " @ " + o.Pos + " :: " + o.Detail
+						}
+						fired = append(fired, k)
 					}
 				}
 				res["fired"] = fired
